@@ -161,6 +161,7 @@ class Interp:
         self.depth_cutoffs: Set[str] = set()
         self.calls_resolved = 0
         self.contexts = 0
+        self.none_derefs: Dict[Tuple[str, str], Witness] = {}   # (func, expr) -> witness: attribute access on a maybe-None value
 
     # -- helpers -------------------------------------------------------------------------------
     def cfg_for(self, f: FuncInfo) -> CFG:
@@ -801,6 +802,12 @@ class Interp:
             if self.is_unset_name(e, cx):
                 return K_U
         base = e.value
+        bkey = dotted(base)
+        if bkey is not None and bkey != 'self':
+            bk = env_get(env, bkey)
+            if bk is not None and ('N' in bk or 'U' in bk) and cx.depth < 90:
+                self.none_derefs.setdefault((cx.f.qualname, norm(e)), self._w(
+                    cx, f'`{norm(e)}` dereferences `{bkey}`, which can be {" or ".join(KIND_WORDS[k] for k in sorted(bk & frozenset("NU")))} here', env))
         bt = self.types.expr(base, cx.scope)
         # property getters of repo classes are analysed as calls
         out: Set[str] = set()
